@@ -1,3 +1,4 @@
+import BigtoolsModel.AtomsBytes
 import BigtoolsModel.RTBuild
 import BigtoolsModel.OverlapsGen
 import BigtoolsModel.RTLayout
@@ -82,3 +83,12 @@ theorem C05_source_overlaps_is_the_models_ov (q qs qe b1 b1s b2 b2e : Nat) :
   gen_overlaps_eq_ov q qs qe b1 b1s b2 b2e
 
 end RT
+
+/-- **Tie to the source: the byte-by-byte decoders** (index search). The readers assemble every field of an index item (leaf: 32 bytes, non-leaf: 24)
+    and of a bedGraph item (12 bytes) from explicitly listed bytes, once per byte order. The lists, regenerated from bbiread.rs and
+    bigwigread.rs on every run, are the consecutive ranges of the format — four 32-bit fields, then the 64-bit offset and size; start,
+    end, value — in both arms, each byte used exactly once: the layout the byte-level reader models decode. -/
+theorem C05_source_item_decoders_take_their_own_bytes :
+    Gen.bf_leaf = BF.bothArms BF.leafFields ∧ Gen.bf_nonleaf = BF.bothArms BF.nonLeafFields ∧
+    Gen.bf_bedgraph_item = BF.bothArms BF.bedGraphFields ∧ ((BF.layout 0 BF.leafFields).flatMap (·.2)) = List.range 32 :=
+  ⟨BF.gen_leaf_bytes, BF.gen_nonleaf_bytes, BF.gen_bedgraph_item_bytes, BF.leaf_arm_covers_the_item.1⟩
